@@ -1,3 +1,308 @@
 import ScryerModel.Model.UGraph
+import Mathlib.Data.List.Sort
+import Mathlib.Logic.Relation
+/-!
+# Lemmas about the `library(ugraphs)` model: ordered sets, `sort/2`, graph basics,
+and the vertex/edge characterisation of every non-iterative operation.
+(Closure, reachability and topological sorting are in `Proofs/UGraphClosure`, `Proofs/UGraphTopSort`.)
+-/
+set_option linter.unnecessarySeqFocus false
 namespace Scryer.UGraph
+
+/-! ## strictly ascending lists -/
+
+theorem sorted_cons {a : Nat} {l : List Nat} : Sorted (a :: l) ↔ (∀ b ∈ l, a < b) ∧ Sorted l := by
+  simp [Sorted]
+
+@[simp] theorem sorted_nil : Sorted [] := by simp [Sorted]
+
+theorem Sorted.nodup {l : List Nat} (h : Sorted l) : l.Nodup :=
+  List.Pairwise.imp (fun h => Nat.ne_of_lt h) h
+
+/-- a strictly ascending list is determined by its members. -/
+theorem sorted_ext : ∀ {l1 l2 : List Nat}, Sorted l1 → Sorted l2 → (∀ x, x ∈ l1 ↔ x ∈ l2) → l1 = l2
+  | [], [], _, _, _ => rfl
+  | [], b :: _, _, _, h => by have := (h b).2 (by simp); simp at this
+  | a :: _, [], _, _, h => by have := (h a).1 (by simp); simp at this
+  | a :: as, b :: bs, h1, h2, h => by
+    rw [sorted_cons] at h1 h2
+    have hab : a = b := by
+      have ha := (h a).1 (by simp)
+      have hb := (h b).2 (by simp)
+      simp at ha hb
+      rcases ha with ha | ha
+      · exact ha
+      · rcases hb with hb | hb
+        · exact hb.symm
+        · have := h1.1 b hb; have := h2.1 a ha; omega
+    subst hab
+    congr 1
+    apply sorted_ext h1.2 h2.2
+    intro x
+    constructor
+    · intro hx
+      have := (h x).1 (by simp [hx])
+      simp at this
+      rcases this with rfl | h'
+      · have := h1.1 x hx; omega
+      · exact h'
+    · intro hx
+      have := (h x).2 (by simp [hx])
+      simp at this
+      rcases this with rfl | h'
+      · have := h2.1 x hx; omega
+      · exact h'
+
+/-! ## ordsets -/
+
+@[simp] theorem ordUnion_nil_right (l : List Nat) : ordUnion l [] = l := by cases l <;> simp [ordUnion]
+@[simp] theorem ordSubtract_nil_right (l : List Nat) : ordSubtract l [] = l := by cases l <;> simp [ordSubtract]
+
+theorem mem_ordUnion {x : Nat} {l1 l2 : List Nat} : x ∈ ordUnion l1 l2 ↔ x ∈ l1 ∨ x ∈ l2 := by
+  fun_induction ordUnion l1 l2 <;> simp_all <;> grind
+
+theorem sorted_ordUnion {l1 l2 : List Nat} (h1 : Sorted l1) (h2 : Sorted l2) : Sorted (ordUnion l1 l2) := by
+  fun_induction ordUnion l1 l2 <;> simp_all [sorted_cons, mem_ordUnion] <;> grind
+
+theorem ordSubtract_sublist {l1 l2 : List Nat} : (ordSubtract l1 l2).Sublist l1 := by
+  fun_induction ordSubtract l1 l2 <;> simp_all
+
+theorem sorted_ordSubtract {l1 l2 : List Nat} (h1 : Sorted l1) : Sorted (ordSubtract l1 l2) :=
+  List.Pairwise.sublist ordSubtract_sublist h1
+
+theorem mem_ordSubtract {x : Nat} {l1 l2 : List Nat} (h1 : Sorted l1) (h2 : Sorted l2) :
+    x ∈ ordSubtract l1 l2 ↔ x ∈ l1 ∧ x ∉ l2 := by
+  fun_induction ordSubtract l1 l2 <;> simp_all [sorted_cons] <;> grind
+
+theorem mem_ordAddElement {x e : Nat} {l : List Nat} : x ∈ ordAddElement l e ↔ x = e ∨ x ∈ l := by
+  fun_induction ordAddElement l e <;> simp_all <;> grind
+
+theorem sorted_ordAddElement {e : Nat} {l : List Nat} (h : Sorted l) : Sorted (ordAddElement l e) := by
+  fun_induction ordAddElement l e <;> simp_all [sorted_cons, mem_ordAddElement] <;> grind
+
+theorem ordUnionNew_fst (l1 l2 : List Nat) : (ordUnionNew l1 l2).1 = ordUnion l1 l2 := by
+  fun_induction ordUnionNew l1 l2 <;> simp_all [ordUnion, consFst, consBoth]
+
+theorem ordUnionNew_snd (l1 l2 : List Nat) : (ordUnionNew l1 l2).2 = ordSubtract l2 l1 := by
+  fun_induction ordUnionNew l1 l2 <;> simp_all [ordSubtract, consFst, consBoth] <;> grind [ordSubtract]
+
+theorem length_ordUnion (l1 l2 : List Nat) :
+    (ordUnion l1 l2).length = l1.length + (ordSubtract l2 l1).length := by
+  fun_induction ordUnion l1 l2 <;> simp_all [ordSubtract] <;> grind [ordSubtract]
+
+/-! ## `sort/2` and `msort_/2` -/
+
+/-- the laws `sortSet` needs from its comparison. -/
+structure StrictOrder {α} (lt : α → α → Bool) : Prop where
+  irrefl : ∀ a, lt a a = false
+  trans : ∀ a b c, lt a b = true → lt b c = true → lt a c = true
+  tri : ∀ a b, lt a b = false → lt b a = false → a = b
+
+theorem natLt_strict : StrictOrder natLt where
+  irrefl := by simp [natLt]
+  trans := by simp [natLt]; omega
+  tri := by simp [natLt]; omega
+
+theorem edgeLt_strict : StrictOrder edgeLt where
+  irrefl := by simp [edgeLt]
+  trans := by
+    rintro ⟨a1, a2⟩ ⟨b1, b2⟩ ⟨c1, c2⟩
+    simp [edgeLt]; omega
+  tri := by
+    rintro ⟨a1, a2⟩ ⟨b1, b2⟩
+    simp [edgeLt]; omega
+
+variable {α : Type} {lt : α → α → Bool}
+
+theorem mem_insertSet (h : StrictOrder lt) {x y : α} {l : List α} :
+    y ∈ insertSet lt x l ↔ y = x ∨ y ∈ l := by
+  fun_induction insertSet lt x l <;> simp_all
+  · grind
+  · rename_i y' ys h1 h2
+    have := h.tri _ _ (by simpa using h1) (by simpa using h2)
+    grind
+
+theorem pairwise_insertSet (h : StrictOrder lt) {x : α} {l : List α}
+    (hl : l.Pairwise (fun a b => lt a b = true)) : (insertSet lt x l).Pairwise (fun a b => lt a b = true) := by
+  fun_induction insertSet lt x l <;> simp_all [mem_insertSet h]
+  · rename_i y ys h1
+    intro a ha
+    exact h.trans _ _ _ h1 (hl.1 a ha)
+
+theorem mem_sortSet (h : StrictOrder lt) {y : α} {l : List α} : y ∈ sortSet lt l ↔ y ∈ l := by
+  induction l with
+  | nil => simp [sortSet]
+  | cons a l ih => simp only [sortSet, List.foldr_cons] at ih ⊢; simp [mem_insertSet h, ih]
+
+theorem pairwise_sortSet (h : StrictOrder lt) (l : List α) : (sortSet lt l).Pairwise (fun a b => lt a b = true) := by
+  induction l with
+  | nil => simp [sortSet]
+  | cons a l ih => simp only [sortSet, List.foldr_cons] at ih ⊢; exact pairwise_insertSet h ih
+
+@[simp] theorem mem_sortNat {y : Nat} {l : List Nat} : y ∈ sortNat l ↔ y ∈ l := mem_sortSet natLt_strict
+
+theorem sorted_sortNat (l : List Nat) : Sorted (sortNat l) := by
+  have := pairwise_sortSet natLt_strict l
+  simpa [natLt, Sorted, sortNat] using this
+
+@[simp] theorem mem_sortEdges {y : Nat × Nat} {l : List (Nat × Nat)} : y ∈ sortEdges l ↔ y ∈ l :=
+  mem_sortSet edgeLt_strict
+
+/-- lexicographic strict order on edges. -/
+def EdgeLt (a b : Nat × Nat) : Prop := a.1 < b.1 ∨ (a.1 = b.1 ∧ a.2 < b.2)
+
+theorem edgeLt_iff {a b : Nat × Nat} : edgeLt a b = true ↔ EdgeLt a b := by
+  simp [edgeLt, EdgeLt]
+
+theorem sorted_sortEdges (l : List (Nat × Nat)) : (sortEdges l).Pairwise EdgeLt := by
+  have := pairwise_sortSet edgeLt_strict l
+  simpa [edgeLt_iff, sortEdges] using this
+
+theorem mem_insertDup {x y : Nat} {l : List Nat} : y ∈ insertDup x l ↔ y = x ∨ y ∈ l := by
+  fun_induction insertDup x l <;> simp_all <;> grind
+
+@[simp] theorem mem_msortNat {y : Nat} {l : List Nat} : y ∈ msortNat l ↔ y ∈ l := by
+  induction l with
+  | nil => simp [msortNat]
+  | cons a l ih => simp only [msortNat, List.foldr_cons] at ih ⊢; simp [mem_insertDup, ih]
+
+theorem insertDup_eq_insertSet {x : Nat} {l : List Nat} (hx : x ∉ l) : insertDup x l = insertSet natLt x l := by
+  fun_induction insertDup x l <;> simp_all [insertSet, natLt] <;> grind
+
+/-- on a list without duplicates `msort_/2` and `sort/2` agree. -/
+theorem msortNat_eq_sortNat {l : List Nat} (h : l.Nodup) : msortNat l = sortNat l := by
+  induction l with
+  | nil => rfl
+  | cons a l ih =>
+    rw [List.nodup_cons] at h
+    simp only [msortNat, sortNat, sortSet, List.foldr_cons] at ih ⊢
+    rw [ih h.2, insertDup_eq_insertSet]
+    have : a ∉ sortNat l := by simp [h.1]
+    exact this
+
+theorem sortNat_eq_nil {l : List Nat} : sortNat l = [] ↔ l = [] := by
+  constructor
+  · intro h
+    cases l with
+    | nil => rfl
+    | cons a l => have : a ∈ sortNat (a :: l) := by simp
+                  rw [h] at this; simp at this
+  · rintro rfl; rfl
+
+/-! ## graph basics -/
+
+@[simp] theorem edge_nil {x y : Nat} : Edge [] x y ↔ False := by simp [Edge]
+
+@[simp] theorem edge_cons {v : Nat} {ns : List Nat} {g : Graph} {x y : Nat} :
+    Edge ((v, ns) :: g) x y ↔ (x = v ∧ y ∈ ns) ∨ Edge g x y := by
+  simp [Edge]; grind
+
+theorem vertices_eq_map (g : Graph) : vertices g = g.map Prod.fst := by
+  induction g with
+  | nil => rfl
+  | cons p g ih => obtain ⟨v, ns⟩ := p; simp [vertices, ih]
+
+theorem mem_vertices {v : Nat} {g : Graph} : v ∈ vertices g ↔ ∃ ns, (v, ns) ∈ g := by
+  simp [vertices_eq_map]
+
+theorem mem_vertices_of_mem {v : Nat} {ns : List Nat} {g : Graph} (h : (v, ns) ∈ g) : v ∈ vertices g :=
+  mem_vertices.2 ⟨ns, h⟩
+
+theorem Edge.src {g : Graph} {x y : Nat} (h : Edge g x y) : x ∈ vertices g := by
+  obtain ⟨ns, h1, _⟩ := h; exact mem_vertices_of_mem h1
+
+@[simp] theorem vertices_nil : vertices [] = [] := rfl
+@[simp] theorem vertices_cons {v : Nat} {ns : List Nat} {g : Graph} : vertices ((v, ns) :: g) = v :: vertices g := rfl
+
+theorem WF.dst {g : Graph} (h : WF g) {x y : Nat} (e : Edge g x y) : y ∈ vertices g := by
+  obtain ⟨ns, h1, h2⟩ := e; exact h.closed _ h1 _ h2
+
+theorem wf_iff {g : Graph} : WF g ↔ Sorted (vertices g) ∧ (∀ p ∈ g, Sorted p.2) ∧ ∀ x y, Edge g x y → y ∈ vertices g := by
+  constructor
+  · intro h; exact ⟨h.keys, h.nbrs, fun x y e => h.dst e⟩
+  · rintro ⟨h1, h2, h3⟩
+    exact ⟨h1, h2, fun p hp y hy => h3 p.1 y ⟨p.2, hp, hy⟩⟩
+
+theorem neighbours_some_mem {v : Nat} {g : Graph} {ns : List Nat} (h : neighbours v g = some ns) : (v, ns) ∈ g := by
+  fun_induction neighbours v g <;> simp_all
+
+theorem neighbours_eq_some {v : Nat} {g : Graph} {ns : List Nat} (hk : Sorted (vertices g)) :
+    neighbours v g = some ns ↔ (v, ns) ∈ g := by
+  fun_induction neighbours v g
+  · simp
+  · rename_i ns0 g
+    simp [sorted_cons] at hk
+    simp
+    constructor
+    · rintro rfl; simp
+    · rintro (h1 | h1)
+      · exact h1.symm
+      · have := hk.1 _ (mem_vertices_of_mem h1); omega
+  · rename_i v0 ns0 g h ih
+    simp [sorted_cons] at hk
+    simp [ih hk.2]
+    grind
+
+theorem neighbours_eq_none {v : Nat} {g : Graph} : neighbours v g = none ↔ v ∉ vertices g := by
+  fun_induction neighbours v g <;> simp_all
+
+theorem neighbours_isSome {v : Nat} {g : Graph} (h : v ∈ vertices g) : ∃ ns, neighbours v g = some ns := by
+  cases h' : neighbours v g with
+  | none => exact absurd h (neighbours_eq_none.1 h')
+  | some ns => exact ⟨ns, rfl⟩
+
+/-- with distinct keys, `x → y` iff `y` is in the neighbour list stored under `x`. -/
+theorem edge_iff_neighbours {g : Graph} (hk : Sorted (vertices g)) {x y : Nat} :
+    Edge g x y ↔ ∃ ns, neighbours x g = some ns ∧ y ∈ ns := by
+  simp [Edge, neighbours_eq_some hk]
+
+/-- Canonical form: two well-formed graphs with the same vertices and the same edges are equal. -/
+theorem graph_ext : ∀ {g h : Graph}, Sorted (vertices g) → Sorted (vertices h) → (∀ p ∈ g, Sorted p.2) →
+    (∀ p ∈ h, Sorted p.2) → (∀ v, v ∈ vertices g ↔ v ∈ vertices h) → (∀ x y, Edge g x y ↔ Edge h x y) → g = h := by
+  intro g h kg kh ng nh hv he
+  have hvs : vertices g = vertices h := sorted_ext kg kh hv
+  clear hv
+  induction g generalizing h with
+  | nil => cases h with
+    | nil => rfl
+    | cons p h => obtain ⟨v, ns⟩ := p; simp at hvs
+  | cons p g ih =>
+    obtain ⟨v, ns⟩ := p
+    cases h with
+    | nil => simp at hvs
+    | cons q h =>
+      obtain ⟨w, ms⟩ := q
+      simp at hvs
+      obtain ⟨rfl, hvs⟩ := hvs
+      simp [sorted_cons] at kg kh
+      have hns : ns = ms := by
+        apply sorted_ext (ng (v, ns) (by simp)) (nh (v, ms) (by simp))
+        intro y
+        have := he v y
+        simp at this
+        constructor
+        · intro hy
+          rcases this.1 (Or.inl hy) with h1 | h1
+          · exact h1
+          · have := kh.1 _ h1.src; omega
+        · intro hy
+          rcases this.2 (Or.inl hy) with h1 | h1
+          · exact h1
+          · have := kg.1 _ h1.src; omega
+      subst hns
+      congr 1
+      apply ih kg.2 kh.2 (fun p hp => ng p (by simp [hp])) (fun p hp => nh p (by simp [hp])) _ hvs
+      intro x y
+      have := he x y
+      simp at this
+      constructor
+      · intro e
+        rcases this.1 (Or.inr e) with h1 | h1
+        · have := kg.1 _ e.src; omega
+        · exact h1
+      · intro e
+        rcases this.2 (Or.inr e) with h1 | h1
+        · have := kh.1 _ e.src; omega
+        · exact h1
+
 end Scryer.UGraph
